@@ -61,8 +61,10 @@ CHECKS_K1 = {
                 "its step / the time since the previous element or the subscription.",
         "note": _K1_NOTE + _HO_NOTE + " A-time / A-time-step as in C16; absolute times are tagged integers. A-exc: an exception object is not None (its truth "
                 "value is arbitrary - the obligation that found defect 1fc92af). The induction schema of the snoc lemmas is instantiated by "
-                "the generator. NOT under contract: delay_with_mapper with a subscription-delay observable (the source is subscribed when it "
-                "first fires). Thorough tier: must-fail mutants and timedrun.py (TestScheduler grid against references written from the "
+                "the generator. delay_with_mapper with a subscription-delay observable: the handlers of the subscription delay are under contract "
+                "(the source is subscribed - once - when it first emits or completes, and the delay is released); that a delay firing from "
+                "INSIDE subscribe keeps the source subscribed afterwards was found natively and repaired (last C15 fix), the harness does not "
+                "run handlers inside the subscribe call-out. Thorough tier: must-fail mutants and timedrun.py (TestScheduler grid against references written from the "
                 "property text) as cross-check of delay / delay_subscription / timestamp / time_interval; numeric virtual clock only (the "
                 "datetime clock of HistoricalScheduler is the same code under A-time).",
         "technique": "K1 handler refinement in virtual time with timer / handler families, recursive sequence functions with ground unfolding, loop invariants, K8 snoc lemmas by induction, SMT",
